@@ -133,6 +133,8 @@ class CreateCompoundFields(RelativeHandlerInterface):
 
         min_occurs, max_occurs = self.sum_counters(counters)
         name = self.choose_name(target, names, list(filter(None, substitutions)))
+        sequences = {attr.restrictions.sequence for attr in attrs}
+        sequence = sequences.pop() if len(sequences) == 1 else None
 
         compound_attr = Attr(
             name=name,
@@ -142,6 +144,7 @@ class CreateCompoundFields(RelativeHandlerInterface):
             restrictions=Restrictions(
                 min_occurs=sum(min_occurs),
                 max_occurs=max(max_occurs) if choice > 0 else sum(max_occurs),
+                sequence=sequence,
             ),
             choices=choices,
         )
